@@ -909,11 +909,11 @@ sweep_geometries(int tier)
   std::vector<json>& out = v[tier ? 1 : 0];
   if (!out.empty())
     return out;
-  const std::size_t want = tier ? 12 : 2;
-  for (uint64_t seed = 7001; out.size() < want && seed < 7400; ++seed)
+  const std::size_t want = tier ? 12 : 4;
+  for (uint64_t seed = 7001; out.size() < want && seed < 9000; ++seed)
     {
       PrngSrc s(seed);
-      json c = gen_config(s, tier ? 80 : 30);
+      json c = gen_config(s, tier ? 80 : 40);
       c["scB"] = c["scA"];
       c["pdiB"] = c["pdiA"];
       c["imgB"] = c["imgA"];
@@ -926,19 +926,41 @@ sweep_geometries(int tier)
           long nb = 0;
           for (int sg = pdi->get_min_segment_num(); sg <= pdi->get_max_segment_num(); ++sg)
             nb += long(pdi->get_num_axial_poss(sg)) * pdi->get_num_views() * pdi->get_num_tangential_poss() * pdi->get_num_tof_poss();
-          if (nb > 4000 || nb < 60)
+          if (nb > 4000 || nb < 200)
             continue;
           auto img = vg::make_image(c["imgA"], *pdi);
-          if (img->get_x_size() < 5)
+          if (img->get_x_size() < 7 || img->get_y_size() < 7)
+            continue;
+          // the geometry classes the property names must be present: the first slots are reserved for them
+          const bool tof = pdi->is_tof_data();
+          const bool tilt = std::fabs(pdi->get_phi(Bin(0, 0, 0, 0))) > 1e-4;
+          const int nv = pdi->get_num_views();
+          const int nseg = pdi->get_num_segments();
+          const auto vs = img->get_voxel_size();
+          const bool aniso = std::fabs(vs.x() - vs.y()) > 2e-3;
+          bool ok = true;
+          switch (out.size())
+            {
+            case 0: ok = !tof && !tilt && nv % 4 == 0 && nseg >= 3 && !aniso; break; // all five symmetries can be active
+            case 1: ok = tof && nseg >= 3; break;                                     // TOF: only shift_z survives
+            case 2: ok = !tof && tilt && nseg >= 3; break;                            // view offset: swap_segment, swap_s, shift_z
+            case 3: ok = !tof && !tilt && nv % 4 == 2 && aniso; break;               // 180-phi only, anisotropic voxels
+            case 4: ok = !tof && !tilt && nv % 4 == 0 && c["pdiA"]["span"].get<int>() % 2 == 0 && nseg >= 3; break; // even span
+            case 5: ok = !tof && !tilt && nv % 4 == 0 && c["pdiA"]["arccorr"].get<bool>(); break;
+            default: break;
+            }
+          if (!ok)
             continue;
           ProjMatrixByBinUsingRayTracing fresh;
           fresh.set_up(pdi, img);
+          ProjMatrixElemsForOneBin row;
+          for (int sg = pdi->get_min_segment_num(); sg <= pdi->get_max_segment_num(); ++sg)
+            fresh.get_proj_matrix_elems_for_one_bin(row, Bin(sg, 0, pdi->get_min_axial_pos_num(sg), 0, 0));
         }
       catch (const std::exception&)
         {
           continue;
         }
-      // the geometry classes the property names must be present: force some by position in the list
       out.push_back(c);
     }
   return out;
